@@ -76,7 +76,11 @@ EXPLANATION = (
     'rank\'s stored mesh, every stored vertex, radius from the rank\'s own edges, then ref_node_ghost_dbl(recon, 6)): '
     'for every rank count and every distribution satisfying the structural invariant WorldOK, when the floor step '
     'succeeds on every rank the refresh completes and EVERY tensor held by EVERY rank - owned or ghost - is positive '
-    'definite (roundoffLimitPar_spd; ghost copies through C06Ghost.ghostRefresh_spec). Tie: stream reconpar_roundoff '
+    'definite (roundoffLimitPar_spd; ghost copies through C06Ghost.ghostRefresh_spec); and the floor itself does not '
+    'depend on the partition: entry i of the radius array is the minimum of the lengths of the cell edges at i (-1 '
+    'without an edge), a function of the SET of those lengths, so at a stored vertex all of whose cells are stored - '
+    'every owned vertex - the rank-local radius is the radius of the global mesh '
+    '(roundoff_radius_partition_independent). Tie: stream reconpar_roundoff '
     '(h_reconpar, np = 1, 2, 3): the real ref_recon_roundoff_limit on explicitly distributed 2-D and 3-D meshes with '
     'SPD / indefinite / singular / zero / tiny Hessians, every stored vertex compared bit for bit with the model; '
     'oracle: the output spectrum is the input spectrum raised to the floor 4e-12/r^2 of the GLOBAL shortest edge at '
@@ -108,7 +112,8 @@ ASSUMPTIONS = [
     'parallel: the model is one rank\'s sum with ref_mpi_allsum as the identity; complexity_rank_sum covers the sum over '
     'ranks; ghost exchange (ref_node_ghost_dbl after every sweep) and the np > 1 run are covered end to end by '
     'cli_multiscale_mpi only: the gradation model is the one-rank sweep (no 2-rank world was modelled); the round-off '
-    'floor IS modelled on a World of ranks (C10Par); that the radius at an owned vertex equals the serial radius (all '
-    'edges at an owned vertex are stored) is tied and oracled (floor of the global shortest edge), not proved',
+    'floor IS modelled on a World of ranks (C10Par: SPD on every rank, radius at an owned vertex = serial radius); the '
+    'eigen-decomposition of the floored tensor is the same function of (tensor, radius) on every rank, so the owned '
+    'results are bit-identical to the one-rank run (oracled)',
     'Python oracle arithmetic (fractions, integer square root, 50-digit decimal Jacobi) is trusted',
 ]
